@@ -8,7 +8,9 @@ Model of the INPUT VALIDATION of `filter_functions` (property C20): every `raise
 
 Abstraction.  The arguments are abstracted to exactly what the checks look at: Python types are
 classes ("has `__len__`", "is an `ndarray`", "has `.full()`" …), arrays are their shapes, durations
-are sign/realness classes, identifiers are strings, cached arrays are identified by a natural
+are sign/realness classes, identifiers are strings, identifier mappings (`extend`, `remap`) are
+`dict`s as item lists (`RemapDef.Dict`; a missing key is the `KeyError` of the source), cached
+arrays are identified by a natural
 number ("bytes id": equal ids ↔ equal `tobytes()`; "value id": equal ids ↔ `np.array_equal`).
 Every function returns `Except Err …`; the ORDER of the checks is that of the source, so the first
 failing check determines the exception class.
@@ -25,12 +27,15 @@ import FFVerif.Gen.Options
 import FFVerif.Model.Pulse
 import FFVerif.Model.Cache
 import FFVerif.Model.Tensor
+import FFVerif.Model.RemapDef
 
 namespace FFVerif.Model.Validate
 open FFVerif.Model
 
 /-- exception classes -/
 inductive Err | typeError | valueError | indexError | calculationError
+  /-- only raised by `extend` / `remap` for an identifier mapping that misses an identifier -/
+  | keyError
 deriving DecidableEq, Repr, Inhabited
 
 def Err.name : Err → String
@@ -38,6 +43,7 @@ def Err.name : Err → String
   | .valueError => "ValueError"
   | .indexError => "IndexError"
   | .calculationError => "CalculationError"
+  | .keyError => "KeyError"
 
 /-- number of distinct values (`len(set(...))`) -/
 def nDistinct {α : Type} [BEq α] (l : List α) : Nat := (Pulse.dedup l).length
@@ -339,7 +345,8 @@ deriving DecidableEq, Repr, Inhabited
 
 def errOfString (s : String) : Err :=
   if s == "TypeError" then .typeError else if s == "IndexError" then .indexError
-  else if s == "CalculationError" then .calculationError else .valueError
+  else if s == "CalculationError" then .calculationError
+  else if s == "KeyError" then .keyError else .valueError
 
 /-- the checks of `concatenate_without_filter_function(pulses)` (for an iterable `pulses`) -/
 def concatWithoutFFChecks (pulses : List CPulse) : Except Err Unit :=
@@ -417,10 +424,14 @@ structure EPulse where
   dtBytes : Nat := 0
   dtValue : Nat := 0
   nDt : Nat := 1
+  /-- `pulse.c_oper_identifiers` -/
+  cIds : List String := []
   /-- `pulse.n_oper_identifiers` -/
   nIds : List String := []
-  /-- the values of a given identifier mapping on `nIds` (`none`: default mapping) -/
-  mapped : Option (List String) := none
+  /-- the identifier mapping given as third element of the entry: a Python `dict` as its item list
+  (`RemapDef.Dict`, keys distinct); `none`: not given / `None`, the default mapping
+  `identifier + '_' + qubits` is used -/
+  mapping : Option RemapDef.Dict := none
   /-- `is_cached('control_matrix')`, bytes id / value id of the cached frequencies -/
   cmCached : Bool := false
   omegaBytes : Option Nat := none
@@ -460,10 +471,13 @@ def EPulse.isSingle (p : EPulse) : Bool := p.form == .bareInt || p.qubits.length
 def EPulse.needsRemap (p : EPulse) : Bool := !(p.form == .tuple && sortNat p.qubits == p.qubits)
 
 /-- `remap(pulse, order, d_per_qubit)` succeeds for a permutation `order` of `range(len(qubit))`:
-`tensor_transpose` requires `sorted(order) == range(N)` with `N = logN`, and the reshape to
-`[d_per_qubit]*N` requires `d = d_per_qubit ** N` -/
+`tensor_transpose` requires `sorted(order) == range(N)` with `N = logN`, the reshape to
+`[d_per_qubit]*N` requires `d = d_per_qubit ** N`, and — since the repair of F48 — `remap` raises
+`ValueError` when the identifiers (here: the pulse's own ones, no mapping is passed) are not unique
+(`remapChecks` below; `extend_inner_remap_consistent` in `Props/C20`) -/
 def EPulse.remapOk (p : EPulse) (dpq : Nat) : Bool :=
-  p.qubits.length == p.logN && p.d == dpq ^ p.logN
+  p.qubits.length == p.logN && p.d == dpq ^ p.logN &&
+    !Pulse.hasDup p.cIds && !Pulse.hasDup p.nIds
 
 /-- `ValueError` raised inside the loop over the mapping entries -/
 def EPulse.loopFails (p : EPulse) (dpq : Nat) : Bool :=
@@ -478,13 +492,24 @@ def EPulse.effOmegaBytes (p : EPulse) : Option Nat :=
 def EPulse.effCm (p : EPulse) : Bool :=
   p.cmCached && !(p.remapped && !p.remapKeepsCm)
 
-/-- identifiers of the noise operators of the mapped pulse in the new pulse -/
-def EPulse.newNIds (p : EPulse) : List String :=
-  match p.mapped with
-  | some l => l
+/-- `_map_identifiers(*_default_extend_mapping(ids, id_mapping, qubits))[0]`: the values of the
+given mapping (`none`: `KeyError`, an identifier is not a key), or of the default mapping
+`{q: q + '_' + ('{}'*len(qubits)).format(*qubits) for q in ids}` (for a single-qubit entry
+`q + '_{}'.format(qubit)`; multi-qubit entries carry the SORTED qubits) -/
+def EPulse.mapIds (p : EPulse) (ids : List String) : Option (List String) :=
+  match p.mapping with
+  | some m => RemapDef.applyDict m ids
   | none =>
     let qs := if p.isSingle then p.qubits else sortNat p.qubits
-    p.nIds.map fun s => s ++ "_" ++ String.join (qs.map toString)
+    some (ids.map fun s => s ++ "_" ++ String.join (qs.map toString))
+
+/-- one of the two `_map_identifiers` calls for this entry raises `KeyError` -/
+def EPulse.keyMissing (p : EPulse) : Bool := (p.mapIds p.cIds).isNone || (p.mapIds p.nIds).isNone
+
+/-- identifiers of the control / noise operators of the mapped pulse in the new pulse (`[]` when the
+mapping misses a key; `extend` has raised `KeyError` then) -/
+def EPulse.newCIds (p : EPulse) : List String := (p.mapIds p.cIds).getD []
+def EPulse.newNIds (p : EPulse) : List String := (p.mapIds p.nIds).getD []
 
 /-- the returns of `extend` "if not mapped to another qubit" (a single entry on its own qubits) -/
 def identityShortcut (pulses : List EPulse) (N : Nat) : Bool :=
@@ -514,7 +539,9 @@ def effCacheFF (x : ExtendSpec) : Bool :=
 /-- `len(pulses[0].dt)` -/
 def extendNDt (x : ExtendSpec) : Nat := ((orderedPulses x).head?.map (·.nDt)).getD 0
 
-/-- the noise identifiers of the mapped pulses in the new pulse -/
+/-- the control / noise identifiers of the mapped pulses in the new pulse (`c_oper_identifiers`,
+`n_oper_identifiers` after the two loops) -/
+def mappedCIds (x : ExtendSpec) : List String := (orderedPulses x).flatMap (·.newCIds)
 def mappedNIds (x : ExtendSpec) : List String := (orderedPulses x).flatMap (·.newNIds)
 
 /-- first part of `extend`: the checks of the mapping; returns the number of qubits `N` -/
@@ -532,10 +559,18 @@ def extendFront (x : ExtendSpec) : Except Err Nat :=
     if (match x.N with | some n => decide (last + 1 > n) | none => false) then .error .valueError
     else .ok (x.N.getD (last + 1))
 
-/-- second part of `extend`: frequencies, option conflict, additional noise Hamiltonian -/
+/-- second part of `extend`: frequencies, option conflict, the two loops over the pulses (a given
+identifier mapping that misses an identifier raises `KeyError` there), uniqueness of the mapped
+identifiers (control first, then noise; the repair of F48), additional noise Hamiltonian -/
 def extendBack (x : ExtendSpec) (N : Nat) : Except Err Nat :=
   if x.cacheFF == some true && !x.omegaGiven && !extEqualOmega x then .error .valueError
   else if x.cacheDiag == some false && x.additional.isSome then .error .valueError
+  -- `mapping[identifier]` in `_map_identifiers`, called in the loops over `multi_qubit_pulses`, then
+  -- `single_qubit_pulses` (control identifiers first, then noise identifiers, per pulse)
+  else if (orderedPulses x).any (·.keyMissing) then .error .keyError
+  -- `if len(set(identifiers)) != len(identifiers): raise ValueError` for control, then noise
+  else if Pulse.hasDup (mappedCIds x) then .error .valueError
+  else if Pulse.hasDup (mappedNIds x) then .error .valueError
   else
     match x.additional with
     | none => .ok N
@@ -555,14 +590,43 @@ def extendChecks (x : ExtendSpec) : Except Err Nat :=
   | .error e => .error e
   | .ok N => if identityShortcut x.pulses N then .ok N else extendBack x N
 
-/-- `remap(pulse, order, d_per_qubit)` on its own: `tensor_transpose(pulse.c_opers, order,
-[[d_per_qubit]*N]*2)` with `N = logN` (the value NumPy computes for
+/-- `_map_identifiers(identifiers, mapping)[0]` in `remap`: the identifiers themselves for
+`mapping is None`, else `[mapping[identifier] for …]` (`none`: `KeyError`) -/
+def remapIds (mapping : Option RemapDef.Dict) (ids : List String) : Option (List String) :=
+  match mapping with
+  | none => some ids
+  | some m => RemapDef.applyDict m ids
+
+/-- the identifier part of `remap`: both `_map_identifiers` calls (control, then noise; `KeyError`),
+then the uniqueness check of the repair of F48 (control, then noise; `ValueError`) -/
+def remapIdChecks (cIds nIds : List String) (mapping : Option RemapDef.Dict) : Except Err Unit :=
+  match remapIds mapping cIds with
+  | none => .error .keyError
+  | some c =>
+    match remapIds mapping nIds with
+    | none => .error .keyError
+    | some n =>
+      if Pulse.hasDup c then .error .valueError
+      else if Pulse.hasDup n then .error .valueError
+      else .ok ()
+
+/-- the operator part of `remap`: `tensor_transpose(pulse.c_opers, order, [[d_per_qubit]*N]*2)`
+(and the same for `n_opers`) with `N = logN` (the value NumPy computes for
 `int(np.log(pulse.d)/np.log(d_per_qubit))`) — the order check of `Model/Tensor`, then the reshape
 of the `d × d` operators to `[d_per_qubit]*N` per side; both failures are `ValueError`s. -/
-def remapChecks (d logN dPerQubit : Nat) (order : List Int) : Except Err Unit :=
+def remapShapeChecks (d logN dPerQubit : Nat) (order : List Int) : Except Err Unit :=
   match Tensor.transposeResultInt (List.replicate logN dPerQubit) order with
   | .error e => .error (errOfString e)
   | .ok _ => if d != dPerQubit ^ logN then .error .valueError else .ok ()
+
+/-- `remap(pulse, order, d_per_qubit, oper_identifier_mapping)` on its own: the two
+`tensor_transpose` calls (`remapShapeChecks`), then the identifiers (`remapIdChecks`; `cIds` /
+`nIds` are `pulse.c_oper_identifiers` / `pulse.n_oper_identifiers`). -/
+def remapChecks (d logN dPerQubit : Nat) (order : List Int) (cIds nIds : List String := [])
+    (mapping : Option RemapDef.Dict := none) : Except Err Unit :=
+  match remapShapeChecks d logN dPerQubit order with
+  | .error e => .error e
+  | .ok _ => remapIdChecks cIds nIds mapping
 
 /-! ### pulse-correlation quantities -/
 
@@ -630,9 +694,9 @@ def convergenceChecks (spectrumCallable omegaIsDict spacingKnown : Bool) : Excep
 
 General: tokens are separated by single blanks and contain none.  Naturals are decimal.  Lists of
 naturals / strings are joined by `,`; the empty list is `_`.  Identifiers must not contain any of
-the characters blank `,` `;` `:` `|` `/` `+` `~` and must not be `_`, `-` or `!`.
-Answer: `ok …` or `err <TypeError|ValueError|IndexError|CalculationError>`; `err bad-request`
-when the request cannot be decoded.
+the characters blank `,` `;` `:` `|` `/` `+` `~` `>` and must not be `_`, `-` or `!`.
+Answer: `ok …` or `err <TypeError|ValueError|IndexError|CalculationError|KeyError>`;
+`err bad-request` when the request cannot be decoded.
 
 * shape   `2x2` (axes joined by `x`); the 0-d shape is `_`
 * oper    `a<shape>` (ndarray), `q<shape>` (convertible: Qobj / sparse / qopt), `o` (anything else)
@@ -643,6 +707,8 @@ when the request cannot be decoded.
 * dt      `!` (no `__len__`), `_` (empty) or classes joined by `,`: `p` (real, not `< 0`),
           `n` (real, `< 0`), `c` (not real)
 * basis   `-` (not given), `!` (no attribute `btype`), `b<shape>`
+* dict    an identifier mapping (encoding of `Model/RemapDef`): `-` (`None` / not given), `_` (the
+          empty dict) or items `<key>><value>` joined by `,` (keys distinct)
 
 Requests:
 * `v_args <dt> <H_c> <H_n> <basis>` → `ok <d> <nDt> <control ids> <noise ids>` (ids in stored
@@ -664,11 +730,17 @@ Requests:
   where the Hamiltonians use the encoding of `Model/Pulse` (`op:id:c1,c2;…`, empty `_`) → `ok`
 * `v_concatp <isPulse 0|1>` → `ok`
 * `v_extend <pulse|pulse|…|_> <N|-> <dPerQubit> <additional ham | - (None)> <cacheDiag -|0|1> <cacheFF -|0|1> <omegaGiven 0|1>`
-  with pulse = `<d>,<logN>,<q+q+…|_>,<t|l|i>,<dtBytes>,<dtValue>,<nDt>,<cmCached 0|1>,<omegaBytes|->,<omegaValue|->,<remapKeepsOmega 0|1>,<remapKeepsCm 0|1>/<noise ids>/<mapped ids | ->`
+  with pulse = `<flags>/<control ids>/<noise ids>/<dict>` where
+  flags = `<d>,<logN>,<q+q+…|_>,<t|l|i>,<dtBytes>,<dtValue>,<nDt>,<cmCached 0|1>,<omegaBytes|->,<omegaValue|->,<remapKeepsOmega 0|1>,<remapKeepsCm 0|1>`
   (`t`/`l`/`i`: qubits written as tuple / list / bare int; `logN` is
   `int(np.log(pulse.d)/np.log(d_per_qubit))`; the two `remapKeeps…` flags are explained at
-  `EPulse`) → `ok <N>`
-* `v_remap <d> <logN> <dPerQubit> <order, integers joined by ,>` → `ok`
+  `EPulse`; control / noise ids: `pulse.c_oper_identifiers` / `pulse.n_oper_identifiers`; dict: the
+  identifier mapping of the entry) → `ok <N>`.
+  OLD FORMAT, still accepted (three parts): pulse = `<flags>/<noise ids>/<mapped ids | ->` with the
+  VALUES of the mapping on the noise identifiers; it is read as `<flags>/_/<noise ids>/<dict>` with
+  the dict `noise id > mapped id` (zipped; no control identifiers).
+* `v_remap <d> <logN> <dPerQubit> <order, integers joined by ,> [<control ids> <noise ids> <dict>]`
+  → `ok` (the last three tokens may be left out together: no identifiers, no mapping)
 * `v_pcidc <cache state> <g>`: `infidelity(which='correlations')`, traceless basis, a noise operator
   with a trace
 * `v_pc <cache state as in the component cache> <pcff:f|pcff:g|pccm|infid:<g>:<traceless 0|1>|decay:<g>>`
@@ -755,17 +827,26 @@ def pForm (s : String) : Option QubitForm :=
   if s == "t" then some .tuple else if s == "l" then some .list
   else if s == "i" then some .bareInt else none
 
+def pEFlags (fl : String) (cIds nIds : List String) (mapping : Option RemapDef.Dict) :
+    Option EPulse :=
+  match fl.splitOn "," with
+  | [d, ln, qs, fm, db, dv, nd, cm, ob, ov, ko, kc] => do
+    pure { d := ← d.toNat?, logN := ← ln.toNat?, qubits := ← pList "+" (·.toNat?) qs,
+           form := ← pForm fm, dtBytes := ← db.toNat?, dtValue := ← dv.toNat?, nDt := ← nd.toNat?,
+           cIds := cIds, nIds := nIds, mapping := mapping,
+           cmCached := ← pB cm, omegaBytes := ← pOptNat ob, omegaValue := ← pOptNat ov,
+           remapKeepsOmega := ← pB ko, remapKeepsCm := ← pB kc }
+  | _ => none
+
 def pEPulse (s : String) : Option EPulse :=
   match s.splitOn "/" with
-  | [fl, ids, mp] =>
-    match fl.splitOn "," with
-    | [d, ln, qs, fm, db, dv, nd, cm, ob, ov, ko, kc] => do
-      pure { d := ← d.toNat?, logN := ← ln.toNat?, qubits := ← pList "+" (·.toNat?) qs,
-             form := ← pForm fm, dtBytes := ← db.toNat?, dtValue := ← dv.toNat?, nDt := ← nd.toNat?,
-             nIds := ← pStrs ids, mapped := ← (if mp == "-" then some none else (pStrs mp).map some),
-             cmCached := ← pB cm, omegaBytes := ← pOptNat ob, omegaValue := ← pOptNat ov,
-             remapKeepsOmega := ← pB ko, remapKeepsCm := ← pB kc }
-    | _ => none
+  | [fl, cids, nids, dict] => do
+    pEFlags fl (← pStrs cids) (← pStrs nids) (← RemapDef.parseDict dict)
+  -- old format: the values of the mapping on the noise identifiers
+  | [fl, ids, mp] => do
+    let nIds ← pStrs ids
+    let mapping ← (if mp == "-" then some none else (pStrs mp).map fun l => some (nIds.zip l))
+    pEFlags fl [] nIds mapping
   | _ => none
 
 def pPcRequest (s : String) : Option PcRequest :=
@@ -825,6 +906,9 @@ def handleValidate (toks : List String) : Option String :=
   | ["v_remap", d, ln, dpq, order] => run do
     pure (answer (fun _ => "") (remapChecks (← d.toNat?) (← ln.toNat?) (← dpq.toNat?)
       (← pList "," (·.toInt?) order)))
+  | ["v_remap", d, ln, dpq, order, cids, nids, dict] => run do
+    pure (answer (fun _ => "") (remapChecks (← d.toNat?) (← ln.toNat?) (← dpq.toNat?)
+      (← pList "," (·.toInt?) order) (← pStrs cids) (← pStrs nids) (← RemapDef.parseDict dict)))
   | ["v_pcidc", st, g] => run do
     pure (answer (fun _ => "") (pcInfidelityIdc (Cache.Obj.parse (st.splitOn ",")) (← g.toNat?)))
   | ["v_pc", st, req] => run do
